@@ -74,6 +74,7 @@ type Replica struct {
 	hsCur pb.HardState
 
 	more            bool         // last Ready said MoreCommittedEntries
+	sendingEarly    bool         // inside the early send of a replica that just became leader
 	leaderMsgs      int          // MsgApp/MsgHeartbeat/MsgSnap stepped in since the last StepNode
 	removedAsNonLdr bool         // applied a RemoveNode in its last Ready while not leader
 	stepConf        pb.ConfState // configuration in effect when the current Ready was produced
@@ -490,7 +491,9 @@ func (s *Sim) cycle(r *Replica, crashPos int, mask uint64, onlyAt uint64) {
 	sent := false
 	if becameLeader && s.cfg.EarlyLeaderSend {
 		// node/raft.go: a replica that just became leader sends before it persists
+		r.sendingEarly = true
 		s.sendAll(r, msgs, ^uint64(0))
+		r.sendingEarly = false
 		sent = true
 		s.count("early_leader_sends", 1)
 	}
